@@ -494,6 +494,7 @@ def catalogue(big=False):
 
     # 13f". a call mapped over an output of a call that may be disabled at run time (it is not / it is)
     P.extend(map_over_disabled_producer())
+    P.extend(round8_shapes())
 
     # 13g. a preflight stage inside a mapped sub-pipeline that takes the mapped element: one
     #      preflight job per fork, each fork's calls wait for (at least) their own
@@ -749,6 +750,62 @@ def mixed_static_dynamic_flags():
                                 call("ALL", binds={"x": ref("INNER", "y")})],
                                {"o": ref("ALL", "y")})], "TOP", {}))
 
+    return P
+
+
+def round8_shapes():
+    """part of catalogue()"""
+    P = []
+    # two disabling conditions that are different outputs of ONE call: the outer one (of the
+    # sub-pipeline) false, the inner one (of a call inside it) true
+    P.append(program("dis_two_flags_one_stage", [],
+                     [stage("FL", "", "bool a, bool b", {"a": const(False), "b": const(True)}), S_echo("A"), S_echo("B")],
+                     [pipeline("SUB", "int x, bool d", "int y, int z",
+                               [call("A", binds={"x": self_("x")}, dis=self_("d")),
+                                call("B", binds={"x": self_("x")})],
+                               {"y": ref("A", "y"), "z": ref("B", "y")}),
+                      pipeline("TOP", "int x", "int o, int p",
+                               [call("FL"),
+                                call("SUB", binds={"x": self_("x"), "d": ref("FL", "b")}, dis=ref("FL", "a"))],
+                               {"o": ref("SUB", "y"), "p": ref("SUB", "z")})], "TOP", {"x": 3}))
+    # per-element flags given as a literal array of the same-named output of two calls
+    P.append(program("dis_lit_flag_two_calls", [],
+                     [stage("FLG", "bool v", "bool skip", {"skip": echo("v")}), S_echo("WORK")],
+                     [pipeline("INNER", "int x, bool skip", "int y",
+                               [call("WORK", binds={"x": self_("x")}, dis=self_("skip"))],
+                               {"y": ref("WORK", "y")}),
+                      pipeline("TOP", "", "int[] o",
+                               [call("FA", "FLG", binds={"v": lit(False)}),
+                                call("FB", "FLG", binds={"v": lit(True)}),
+                                call("FC", "FLG", binds={"v": lit(False)}),
+                                call("INNER", binds={"x": split(lit([10, 20, 30])),
+                                                     "skip": split(mro.arrx(ref("FA", "skip"), ref("FB", "skip"), ref("FC", "skip")))}, mode="array")],
+                               {"o": ref("INNER", "y")})], "TOP", {}))
+    # a sub-pipeline with a preflight of its own and a call fed from outside of it
+    P.append(program("preflight_sub_outside_input", [], [stage("CHK", "int x", "", {}), S_echo("X"), S_echo("USE")],
+                     [pipeline("SUB", "int v", "int y",
+                               [call("CHK", binds={"x": lit(1)}, pre=True),
+                                call("USE", binds={"x": self_("v")})], {"y": ref("USE", "y")}),
+                      pipeline("TOP", "int x", "int o",
+                               [call("X", binds={"x": self_("x")}),
+                                call("SUB", binds={"v": ref("X", "y")})],
+                               {"o": ref("SUB", "y")})], "TOP", {"x": 4}))
+    # two preflight stages in one pipeline
+    P.append(program("preflight_two", [], [stage("CHK", "int x", "", {}), stage("CHK2", "int x", "", {}), S_echo("A"), S_echo("B")],
+                     [pipeline("TOP", "int x", "int o",
+                               [call("CHK", binds={"x": self_("x")}, pre=True),
+                                call("CHK2", binds={"x": lit(2)}, pre=True),
+                                call("A", binds={"x": self_("x")}),
+                                call("B", binds={"x": ref("A", "y")})],
+                               {"o": ref("B", "y")})], "TOP", {"x": 4}))
+    # a call mapped over a run-time typed map whose values are arrays of a struct wider than
+    # the element type of the parameter
+    P.append(program("map_narrow_arrays", [struct("BIG", "int a, int b, int c"), struct("SMALL", "int a, int b")],
+                     [S_const("MK", "map<BIG[]> byk", {"byk": {"k1": [{"a": 1, "b": 2, "c": 3}, {"a": 4, "b": 5, "c": 6}], "k2": []}}),
+                      stage("USE", "SMALL[] p", "int n", {"n": length("p")})],
+                     [pipeline("TOP", "", "map<int> n",
+                               [call("MK"), call("USE", binds={"p": split(ref("MK", "byk"))}, mode="map")],
+                               {"n": ref("USE", "n")})], "TOP", {}))
     return P
 
 
